@@ -410,13 +410,16 @@ fn eviction_race(rep: &'static Report, thorough: bool) -> Value {
 fn plugin_ws(alt: Option<(&str, u8)>) -> crate::ws::Ws {
     use crate::ws::{FileSpec, Item, Ws};
     let mut files = vec![
-        FileSpec::new("conftest.py", vec![Item::fixture("root_fx", &[])]),
+        // the root conftest reaches deep.py through helpers.py (a chain two modules deep that only imports discover)
+        FileSpec::new("conftest.py", vec![Item::StarImport { module: "helpers".into() }, Item::fixture("root_fx", &[])]),
+        FileSpec::new("helpers.py", vec![Item::StarImport { module: "deep".into() }, Item::fixture("hx", &[])]),
+        FileSpec::new("deep.py", vec![Item::fixture("deep_fx", &[])]),
         FileSpec { rel: "plug/myplug.py".into(), plugin: true, guarded_imports: false, items: vec![Item::StarImport { module: "shared".into() }, Item::StarImport { module: "conftest".into() }, Item::PytestPlugins { modules: vec!["more".into()] }, Item::fixture("pfx", &[])] },
         FileSpec::new("plug/shared.py", vec![Item::fixture("shx", &[])]),
         FileSpec::new("plug/more.py", vec![Item::fixture("mx", &[])]),
         FileSpec::new("plug/conftest.py", vec![Item::fixture("cfx", &["shx"])]),
         FileSpec::new("plug/test_p.py", vec![Item::fixture("lx", &["pfx"]), Item::test("p", &["lx", "cfx", "mx"])]),
-        FileSpec::new("tests/test_a.py", vec![Item::test("a", &["root_fx", "pfx", "shx", "mx"])]),
+        FileSpec::new("tests/test_a.py", vec![Item::test("a", &["root_fx", "pfx", "shx", "mx", "hx", "deep_fx"])]),
     ];
     if let Some((rel, version)) = alt {
         let f = files.iter_mut().find(|f| f.rel == rel).expect("file");
@@ -492,6 +495,8 @@ fn real_tree_layer(rep: &'static Report) -> Value {
                     "plug/conftest.py" => "conftest.py star-imported by the plugin",
                     "plug/test_p.py" => "test file inside the plugin directory",
                     "conftest.py" => "plain conftest.py",
+                    "helpers.py" => "module star-imported by the root conftest, importing a further module itself",
+                    "deep.py" => "module at the end of an import chain",
                     _ => "plain test file",
                 };
                 let fp = format!("real scan + {}: the index does not describe the buffer exactly once ({}): {}", timing, role, classify(&got, w, rel));
